@@ -341,6 +341,9 @@ pub struct PortState {
     pub settings_stall: Option<Duration>,
     /// a line so slow that EVERY read call blocks this long before it delivers (a byte at a time at a few hundred baud)
     pub read_stall_each: Option<Duration>,
+    /// the port's present framing is something the settings enums cannot name (1.5 stop bits, mark parity): the getters for
+    /// character size, parity and stop bits answer None until a setter has been called
+    pub opaque_framing: bool,
     pub read_calls: usize,
 }
 
@@ -387,6 +390,7 @@ pub fn shared(settings: PortSettings) -> Shared {
         first_read_stall: None,
         settings_stall: None,
         read_stall_each: None,
+        opaque_framing: false,
         read_calls: 0,
     }))
 }
@@ -403,6 +407,8 @@ pub const WEIRD_SETTINGS: PortSettings = PortSettings {
 pub struct InstrSettings {
     cur: PortSettings,
     st: Shared,
+    /// which of character size / parity / stop bits a setter has been called for (see `PortState::opaque_framing`)
+    touched: (bool, bool, bool),
 }
 
 impl SerialPortSettings for InstrSettings {
@@ -410,13 +416,13 @@ impl SerialPortSettings for InstrSettings {
         Some(self.cur.baud_rate)
     }
     fn char_size(&self) -> Option<CharSize> {
-        Some(self.cur.char_size)
+        if self.st.borrow().opaque_framing && !self.touched.0 { None } else { Some(self.cur.char_size) }
     }
     fn parity(&self) -> Option<Parity> {
-        Some(self.cur.parity)
+        if self.st.borrow().opaque_framing && !self.touched.1 { None } else { Some(self.cur.parity) }
     }
     fn stop_bits(&self) -> Option<StopBits> {
-        Some(self.cur.stop_bits)
+        if self.st.borrow().opaque_framing && !self.touched.2 { None } else { Some(self.cur.stop_bits) }
     }
     fn flow_control(&self) -> Option<FlowControl> {
         Some(self.cur.flow_control)
@@ -436,14 +442,17 @@ impl SerialPortSettings for InstrSettings {
     fn set_char_size(&mut self, char_size: CharSize) {
         self.st.borrow_mut().push(PortEv::SetCharSize(char_size), Instant::now());
         self.cur.char_size = char_size;
+        self.touched.0 = true;
     }
     fn set_parity(&mut self, parity: Parity) {
         self.st.borrow_mut().push(PortEv::SetParity(parity), Instant::now());
         self.cur.parity = parity;
+        self.touched.1 = true;
     }
     fn set_stop_bits(&mut self, stop_bits: StopBits) {
         self.st.borrow_mut().push(PortEv::SetStopBits(stop_bits), Instant::now());
         self.cur.stop_bits = stop_bits;
+        self.touched.2 = true;
     }
     fn set_flow_control(&mut self, flow_control: FlowControl) {
         self.st.borrow_mut().push(PortEv::SetFlow(flow_control), Instant::now());
@@ -491,10 +500,10 @@ impl serial_core::SerialPort for CarefulPort {
     fn reconfigure(&mut self, setup: &dyn Fn(&mut dyn SerialPortSettings) -> serial_core::Result<()>) -> serial_core::Result<()> {
         let cur = self.st.borrow().settings;
         for _ in 0..self.rehearsals {
-            let mut scratch = InstrSettings { cur, st: shared(cur) };
+            let mut scratch = InstrSettings { cur, st: shared(cur), touched: (false, false, false) };
             setup(&mut scratch)?;
         }
-        let mut live = InstrSettings { cur, st: self.st.clone() };
+        let mut live = InstrSettings { cur, st: self.st.clone(), touched: (false, false, false) };
         setup(&mut live)?;
         self.st.borrow_mut().settings = live.cur;
         Ok(())
@@ -644,6 +653,7 @@ impl SerialDevice for InstrPort {
             None => Ok(InstrSettings {
                 cur: self.st.borrow().settings,
                 st: self.st.clone(),
+                touched: (false, false, false),
             }),
         }
     }
